@@ -163,6 +163,10 @@ theorem rpartition_last (s sep : Str) :
 theorem splitlines_keep_concat (s : Str) : (splitlines s true).flatten = s := by
   simpa [splitlines] using splitlinesAux_keep_flatten s []
 
+/-- `splitlines` without `keep_ends`: no line contains a line break -/
+theorem splitlines_lines_clean (s : Str) : ∀ l ∈ splitlines s false, ∀ c ∈ l, c ≠ '\n' ∧ c ≠ '\r' :=
+  splitlinesAux_clean s [] (by simp)
+
 /-- `count` = number of separators between the pieces of `split` (non-overlapping, left to right) -/
 theorem count_eq_pieces (s pat : Str) : count s pat + 1 = (split s pat none).length := by
   unfold count split
@@ -353,6 +357,24 @@ theorem multiply_length (s : Str) (n : Nat) : (multiply s n).length = n * s.leng
   induction n with
   | zero => simp
   | succ n ih => rw [List.replicate_succ, List.flatten_cons, List.length_append, ih, Nat.succ_mul]; omega
+
+/-- `zfill`: the result is as wide as asked, never shorter than the text (also for width 0 on a negative number,
+where the pinned code underflows) -/
+theorem zfill_length (w : Nat) (s : Str) : (zfill1 w s).length = max w s.length := by
+  unfold zfill1
+  cases s with
+  | nil => simp; split <;> simp <;> omega
+  | cons c cs =>
+    by_cases hc : c = '-'
+    · subst hc
+      simp only [decide_true, if_true, List.drop_one, List.tail_cons, List.length_cons]
+      split
+      · simp only [List.length_append, List.length_replicate]; omega
+      · omega
+    · simp only [hc, decide_false, Bool.false_eq_true, if_false, List.length_cons, Nat.sub_zero]
+      split
+      · simp only [List.length_append, List.length_replicate, List.length_cons]; omega
+      · simp only [List.length_cons]; omega
 
 /-- `_join` puts the separator between the characters -/
 theorem joinChars_eq (s sep : Str) : joinChars s sep = joinWith sep (s.map (fun c => [c])) := joinChars_eq_joinWith s sep
